@@ -7,6 +7,10 @@ import OtelVerif.Lemmas.C01Size
 import OtelVerif.Model.C01Classify
 import OtelVerif.Lemmas.C01Err
 import OtelVerif.Lemmas.C01Distinct
+import OtelVerif.Lemmas.C01GlueLive
+import OtelVerif.Lemmas.C01Blind
+import OtelVerif.Lemmas.C01GlueStop
+import OtelVerif.Model.C01Config
 /-!
 # C01 — the persistent sending queue never loses an accepted request across crashes
 
@@ -43,6 +47,35 @@ theorem C01_no_loss_distinct (k : Conf) (ls : List Label) (h : (offeredOf ls).No
     (run k ls).accepted.Nodup ∧
     ∀ r ∈ (run k ls).accepted, r ∈ (run k ls).finalised ∨ Recoverable (run k ls).st r :=
   ⟨C01_accepted_nodup_of_distinct_offers k ls h, C01_no_loss k ls⟩
+
+def exA' : Req := ⟨1, 1⟩
+
+/-- **Id-blindness** (formerly an assumption): the queue machine never inspects the identity of a request — renaming the
+ids by ANY function `f` commutes with every label, in every configuration (`Cfg.ren` renames the ids everywhere: store,
+pending hand-offs, blocked offers, histories, result) … -/
+theorem C01_fire_id_blind (f : Nat → Nat) (c : Cfg) (l : Label) : fire (c.ren f) (l.ren f) = (fire c l).ren f :=
+  fire_ren f c l
+
+/-- … hence with whole runs -/
+theorem C01_run_id_blind (f : Nat → Nat) (k : Conf) (ls : List Label) :
+    run k (ls.map (Label.ren f)) = (run k ls).ren f := run_ren f k ls
+
+/-- **The per-request reading loses no generality.**  EVERY script `ls` — also one that offers equal requests several
+times — is the image under a renaming `f` of a script `ls'` whose offers are pairwise different (the offers numbered in
+order of appearance), its run is the image of the run of `ls'`, and in that run every accepted request is accounted for on
+its own: `accepted` is duplicate-free and each element is finalised or recoverable.  Two equal payloads are two requests
+of `ls'`; one finalised copy discharges only itself. -/
+theorem C01_no_loss_every_script (k : Conf) (ls : List Label) :
+    ∃ (ls' : List Label) (f : Nat → Nat), ls'.map (Label.ren f) = ls ∧ run k ls = (run k ls').ren f ∧
+      (offeredOf ls').Nodup ∧ (run k ls').accepted.Nodup ∧
+      ∀ r ∈ (run k ls').accepted, r ∈ (run k ls').finalised ∨ Recoverable (run k ls').st r := by
+  obtain ⟨hn, hm⟩ := exists_distinct_preimage ls
+  refine ⟨tagOffers 0 ls, untag 0 ls, hm, ?_, hn, (C01_no_loss_distinct k _ hn).1, (C01_no_loss_distinct k _ hn).2⟩
+  rw [← run_ren, hm]
+
+-- the same value offered twice: the preimage offers two different requests, both accepted, ONE finalised, the other recoverable
+example : tagOffers 0 [.start, .tick, .offer exA', .offer exA', .read, .tick, .done 0 .final] =
+    [.start, .tick, .offer ⟨0, 1⟩, .offer ⟨1, 1⟩, .read, .tick, .done 0 .final] := by rfl
 
 /-- `accepted` really contains every request for which `Offer` returned nil -/
 theorem C01_offer_ok_accepted (c : Cfg) (m : Mem) (r : Req) (h : c.ph = .live m .idle)
@@ -242,6 +275,51 @@ theorem C01_outcome_shutdown_iff (t : ErrTree) : outcomeOf (some t) = .shutdownE
   unfold outcomeOf
   cases h : t.isShutdown <;> simp [h]
 
+theorem outcome_appendErr (a b : Option ErrTree) :
+    outcomeOf (appendErr a b) = .shutdownErr ↔ outcomeOf a = .shutdownErr ∨ outcomeOf b = .shutdownErr := by
+  cases a with
+  | none => simp [appendErr, outcomeOf]
+  | some a =>
+    cases b with
+    | none => simp [appendErr, outcomeOf]
+    | some b =>
+      simp only [appendErr, outcomeOf, ErrTree.isShutdown]
+      by_cases ha : a.isShutdown = true <;> by_cases hb : b.isShutdown = true <;> simp [ha, hb]
+
+theorem outcome_foldl_appendErr (parts : List (Option ErrTree)) : ∀ acc : Option ErrTree,
+    outcomeOf (parts.foldl appendErr acc) = .shutdownErr ↔
+      outcomeOf acc = .shutdownErr ∨ ∃ e ∈ parts, outcomeOf e = .shutdownErr := by
+  induction parts with
+  | nil => intro acc; simp
+  | cons p ps ih =>
+    intro acc
+    rw [List.foldl_cons, ih, outcome_appendErr]
+    constructor
+    · rintro ((h | h) | ⟨e, he, h⟩)
+      · exact Or.inl h
+      · exact Or.inr ⟨p, List.mem_cons_self, h⟩
+      · exact Or.inr ⟨e, List.mem_cons_of_mem _ he, h⟩
+    · rintro (h | ⟨e, he, h⟩)
+      · exact Or.inl (Or.inl h)
+      · rcases List.mem_cons.mp he with rfl | he
+        · exact Or.inl (Or.inr h)
+        · exact Or.inr ⟨e, he, h⟩
+
+/-- **A request exported in several flushes** (`refCountDone`, `default_batcher.go`): what the queue's `Done` receives when
+the last flush has returned is shutdown-classified — the request stays stored — exactly when SOME flush was
+shutdown-classified, whatever the other flushes returned (nil, permanent, anything) and in whatever order they returned.
+So a split request one of whose parts was interrupted by shutdown is kept even if an earlier part failed finally. -/
+theorem C01_refcount_aggregate_shutdown_iff (parts : List (Option ErrTree)) :
+    outcomeOf (aggregate parts) = .shutdownErr ↔ ∃ e ∈ parts, outcomeOf e = .shutdownErr := by
+  unfold aggregate
+  rw [outcome_foldl_appendErr]
+  simp [outcomeOf]
+
+-- the seeded witness: first flush rejected permanently, second flush interrupted by shutdown — and the other order
+example : outcomeOf (aggregate [some .plain, some (.shutdown .plain)]) = .shutdownErr ∧
+    outcomeOf (aggregate [some (.shutdown .plain), none, some .plain]) = .shutdownErr ∧
+    outcomeOf (aggregate [some .plain, none]) = .final := by decide
+
 example : outcomeOf (some (.join (.wrap .plain) (.join (.shutdown .plain) (.shutdown .plain)))) = .shutdownErr := by decide
 example : outcomeOf (some (.join (.wrap .plain) .plain)) = .final ∧ outcomeOf none = .final := by decide
 
@@ -285,6 +363,25 @@ open OtelVerif.Gen in
 /-- the constants the codec model (`Model/C01Codec.lean`) and `itemKey` are written with are those of the source -/
 theorem C01_gen_codec_constants :
     PQKeys.indexWidth = 8 ∧ PQKeys.arrayPrefixWidth = 4 ∧ PQKeys.arrayElemWidth = 8 ∧ PQKeys.itemKeyRadix = 10 := by decide
+
+open OtelVerif.Gen in
+/-- **The straight-line glue code is what the glue machine is written for** (regenerated from the source on every run by
+`translators/cmd/pqkeys`; together with the pinned consumer loop and `disabledBatcher.Consume`): `refCountDone` combines the
+flush errors with `multierr.Append` (`aggregate`, `C01_refcount_aggregate_shutdown_iff`); the export closure of
+`NewQueueSender` returns the error of `next.Send` unchanged; both `stopCh` branches of `retrySender.Send` return
+`experr.NewShutdownErr(err)` (`backoffEnd j .stop`); `persistentQueue.onDone` keeps the item exactly under
+`experr.IsShutdownErr(consumeErr)` — no further condition (`outcomeOf`); `BaseExporter.Shutdown` stops the retry sender
+before the queue. -/
+theorem C01_gen_glue_shapes :
+    PQKeys.refCountCombine.toList = "multierr.Append(rcd.err, err)".toList ∧
+    PQKeys.exportFuncShape.map String.toList =
+      ["if errSend := next.Send(ctx, req); errSend != nil", "return errSend", "return nil"].map String.toList ∧
+    PQKeys.retryStopReturns.map String.toList =
+      ["return experr.NewShutdownErr(err)", "return experr.NewShutdownErr(err)"].map String.toList ∧
+    PQKeys.onDoneKeepGuard.toList = "experr.IsShutdownErr(consumeErr)".toList ∧
+    PQKeys.baseExporterShutdownOrder.map String.toList =
+      ["be.RetrySender", "be.QueueSender", "be.ShutdownFunc"].map String.toList ∧
+    PQKeys.consumerGlueShapePinned = 1 := by decide
 
 /-- **Refinement to bytes.**  For every store that satisfies the store invariant (every reachable one does) and whose write
 index fits `uint64` and dispatched list fits the `uint32` length prefix: encoding it under the real key names with
@@ -467,5 +564,256 @@ example : (run { cap := 1, block := true }
       [.start, .tick, .offer exA, .offer exB, .offer exC, .read, .tick, .done 0 .final, .promote 1, .wake, .wake]).res = .offerBlocked := by decide
 
 end Examples
+
+/-! ### from the exporter's options to the queue object (`Model/C01Config.lean`)
+
+Whether the exporter HAS the persistent queue the user configured is decided by straight-line code between the public
+options and `newPersistentQueue` (tied by the exact differentials `config` / `cfgbuild` on the real `NewBaseExporter`,
+`newQueueBatchConfig`, `newQueueBatch`, `Config.Validate`). -/
+
+section ConfigThms
+open OtelVerif.C01.Cfg
+
+/-- the queue option that counts: the LAST enabled `WithQueue` / `WithQueueBatch` (disabled ones are ignored) -/
+def lastEnabledQueue : List Opt → Option QCfg
+  | [] => none
+  | o :: os =>
+    match lastEnabledQueue os with
+    | some q => some q
+    | none => match o with
+      | .queue q => if q.enabled then some q else none
+      | _ => none
+
+theorem applyOpts_queueCfg (opts : List Opt) : ∀ be : BE,
+    (opts.foldl applyOpt be).queueCfg = (lastEnabledQueue opts).getD be.queueCfg := by
+  induction opts with
+  | nil => intro be; rfl
+  | cons o os ih =>
+    intro be
+    rw [List.foldl_cons, ih]
+    simp only [lastEnabledQueue]
+    cases h : lastEnabledQueue os with
+    | some q => rfl
+    | none =>
+      cases o with
+      | queue q =>
+        simp only [applyOpt]
+        by_cases he : q.enabled = true <;> simp [he]
+      | batcher b => rfl
+      | retry e => simp only [applyOpt]; cases e <;> rfl
+
+/-- **A configured persistent queue is built as configured**: `newQueueBatch` on a config with a storage id (and a sizer the
+exporter supports) builds the PERSISTENT queue on that storage with the configured capacity, blocking mode and sizer —
+with or without a batcher, legacy or not. -/
+theorem C01_config_persistent_queue_built_as_configured (q : QCfg) (legacy : Bool) (s : Nat)
+    (hs : q.storage = some s) (hz : q.sizer ≠ .other) :
+    ∃ rt, build q legacy = some rt ∧ rt.kind = .persistent s ∧ rt.capacity = q.queueSize ∧
+      rt.blockOnOverflow = q.blockOnOverflow ∧ rt.sizer = q.sizer := by
+  refine ⟨_, by simp only [build, hz, if_false]; rfl, ?_, rfl, rfl, rfl⟩
+  simp [hs]
+
+/-- … and a memory queue is built exactly when no storage id is configured -/
+theorem C01_config_memory_iff_no_storage (q : QCfg) (legacy : Bool) (rt : Runtime) (h : build q legacy = some rt) :
+    rt.kind = .memory ↔ q.storage = none := by
+  unfold build at h
+  split at h
+  · cases h
+  · injection h with h
+    subst h
+    cases hq : q.storage <;> simp
+
+/-- **The deprecated `WithBatcher` next to an enabled queue keeps every queue setting** (storage id, capacity, blocking,
+consumers, sizer); it only adds the batch section -/
+theorem C01_config_legacy_batcher_keeps_queue_settings (q : QCfg) (b : LegacyB) (mi nc : Int) (he : q.enabled = true) :
+    (mergeLegacy q b mi nc).storage = q.storage ∧ (mergeLegacy q b mi nc).queueSize = q.queueSize ∧
+    (mergeLegacy q b mi nc).blockOnOverflow = q.blockOnOverflow ∧ (mergeLegacy q b mi nc).numConsumers = q.numConsumers ∧
+    (mergeLegacy q b mi nc).sizer = q.sizer ∧ (mergeLegacy q b mi nc).enabled = true := by
+  unfold mergeLegacy
+  cases hb : b.enabled <;> simp [he]
+
+/-- **End to end**: whatever options the exporter is built with, in whatever order — if the last enabled queue option asks
+for storage `s` (with a supported sizer), the exporter has a queue sender and `NewQueueSender` builds the persistent queue
+on `s` with that option's capacity and blocking mode, whether or not `WithBatcher` is present. -/
+theorem C01_config_exporter_has_configured_persistent_queue (opts : List Opt) (q : QCfg) (s : Nat) (mi nc : Int)
+    (hq : lastEnabledQueue opts = some q) (hen : q.enabled = true) (hs : q.storage = some s) (hz : q.sizer ≠ .other) :
+    (applyOpts opts).hasQueueSender = true ∧
+    ∃ rt, buildSender (applyOpts opts).queueCfg (applyOpts opts).batcherCfg mi nc = some rt ∧
+      rt.kind = .persistent s ∧ rt.capacity = q.queueSize ∧ rt.blockOnOverflow = q.blockOnOverflow := by
+  have hcfg : (applyOpts opts).queueCfg = q := by
+    unfold applyOpts; rw [applyOpts_queueCfg, hq]; rfl
+  refine ⟨by simp [BE.hasQueueSender, hcfg, hen], ?_⟩
+  rw [hcfg]
+  obtain ⟨h1, h2, h3, _, h5, _⟩ := C01_config_legacy_batcher_keeps_queue_settings q (applyOpts opts).batcherCfg mi nc hen
+  obtain ⟨rt, hb, hk, hc, hbl, _⟩ := C01_config_persistent_queue_built_as_configured
+    (mergeLegacy q (applyOpts opts).batcherCfg mi nc) (applyOpts opts).batcherCfg.enabled s (by rw [h1]; exact hs) (by rw [h5]; exact hz)
+  exact ⟨rt, hb, hk, by rw [hc, h2], by rw [hbl, h3]⟩
+
+/-- a VALID persistent queue config has the `requests` sizer, no `wait_for_result`, positive size and consumers, and NO
+`sending_queue::batch` — so a stored request is exported in several flushes only through the deprecated `WithBatcher`
+(whose merge happens after validation: `C01_config_legacy_batcher_keeps_queue_settings`; harness `split` drives both) -/
+theorem C01_config_valid_persistent_has_no_batch (q : QCfg) (he : q.enabled = true) (hs : q.storage.isSome = true)
+    (hv : validate q = .ok) :
+    q.batch = none ∧ q.sizer = .requests ∧ q.waitForResult = false ∧ 0 < q.queueSize ∧ 0 < q.numConsumers := by
+  unfold validate at hv
+  simp only [he, Bool.not_true, Bool.false_eq_true, if_false, hs, Bool.true_and] at hv
+  by_cases h1 : q.numConsumers ≤ 0
+  · simp [h1] at hv
+  · simp only [h1, if_false] at hv
+    by_cases h2 : q.queueSize ≤ 0
+    · simp [h2] at hv
+    · simp only [h2, if_false] at hv
+      cases hw : q.waitForResult
+      · simp only [hw, Bool.false_eq_true, if_false] at hv
+        cases hz : q.sizer <;> simp [hz] at hv
+        cases hb : q.batch
+        · exact ⟨rfl, rfl, rfl, by omega, by omega⟩
+        · simp [hb] at hv
+      · simp [hw] at hv
+
+example : (applyOpts [.queue { enabled := true, storage := some 7, queueSize := 5, numConsumers := 2 },
+                      .batcher { enabled := true, flush := 1, max := 2 }, .queue { enabled := false }]).queueCfg.storage = some 7 := by decide
+example : buildSender { enabled := true, storage := some 7, queueSize := 5, numConsumers := 2 } { enabled := true, flush := 1, max := 2 } 9 4 =
+    some { kind := .persistent 7, capacity := 5, blockOnOverflow := false, sizer := .requests, numConsumers := 1,
+           batcher := some (⟨1, 0, 2⟩, .items) } := by decide
+example : validate { enabled := true, storage := some 7, queueSize := 5, numConsumers := 2 } = .ok := by decide
+
+end ConfigThms
+
+/-! ### the glue: from `Read` to the export function and back to `Done`
+
+`Model/C01Glue.lean` composes the queue machine with the consumer goroutines of `asyncQueue`, `disabledBatcher.Consume`,
+the export closure of `NewQueueSender` and `retrySender.Send`.  The labels `read` / `done` of the queue machine are no
+longer free: only a consumer goroutine issues them (`cRead j`, `cDone j`), and `cDone j` passes the outcome of the export
+that goroutine j has just finished.  Every theorem quantifies over ALL glue label lists `gls` (any schedule of the
+goroutines, any behaviour of the export function, deaths anywhere). -/
+
+/-- **Refinement.**  The queue component of every glue run is a run of the queue machine (on the labels recorded in the
+ghost `emitted`), so every theorem above holds for it — in particular `C01_no_loss`. -/
+theorem C01_glue_refines_queue (gk : GConf) (k : Conf) (gls : List GLabel) :
+    (runG gk k gls).q = run k (runG gk k gls).emitted.reverse :=
+  refines_foldl k gls (initG gk k) rfl
+
+theorem C01_glue_no_loss (gk : GConf) (k : Conf) (gls : List GLabel) :
+    ∀ r ∈ (runG gk k gls).q.accepted, r ∈ (runG gk k gls).q.finalised ∨ Recoverable (runG gk k gls).q.st r := by
+  rw [C01_glue_refines_queue]; exact C01_no_loss k _
+
+/-- **`Done` is called once per hand-off, on the incarnation that handed the request out** — formerly an assumption
+(the queue machine ignores `done i` for an index that is not pending; the real `onDone` has no such guard).  In the glue
+machine no `done` ever hits an index that is not pending, in any schedule: the result `doneUnknown` is unreachable, … -/
+theorem C01_glue_done_only_on_pending_handoff (gk : GConf) (k : Conf) (gls : List GLabel) :
+    (runG gk k gls).q.res ≠ .doneUnknown :=
+  (ginv_runG gk k gls).unk
+
+/-- … because what the goroutines hold (`Read` returned it, `OnDone` not yet entered) is pending in the queue, no two
+goroutines hold the same index, and the pending indexes are pairwise different -/
+theorem C01_glue_held_is_pending (gk : GConf) (k : Conf) (gls : List GLabel) :
+    HeldOK (runG gk k gls).cons (outstOf (runG gk k gls).q) ∧ OutInv (runG gk k gls).q :=
+  ⟨(ginv_runG gk k gls).held, (ginv_runG gk k gls).out⟩
+
+/-- **A request is finalised only after the export function has returned for it** (and it was invoked before): `Done` is
+called with the export's outcome, after the export returned — for every schedule, also with several consumers. -/
+theorem C01_glue_final_only_after_export_returned (gk : GConf) (k : Conf) (gls : List GLabel) :
+    ∀ r ∈ (runG gk k gls).q.finalised, r ∈ (runG gk k gls).returned ∧ r ∈ (runG gk k gls).invoked := by
+  intro r hr
+  have h := ginv_runG gk k gls
+  exact ⟨h.fin r hr, h.sub r (h.fin r hr)⟩
+
+/-- **A request disappears from storage only after one hand-off TO THE EXPORT FUNCTION has completed** -/
+theorem C01_glue_leaves_storage_only_after_export_returned (gk : GConf) (k : Conf) (gls : List GLabel) :
+    ∀ r ∈ (runG gk k gls).q.accepted, ¬ InStore (runG gk k gls).q.st r → r ∈ (runG gk k gls).returned := by
+  intro r hr hns
+  rcases C01_glue_no_loss gk k gls r hr with hf | hrec
+  · exact (C01_glue_final_only_after_export_returned gk k gls r hf).1
+  · exact absurd hrec.inStore hns
+
+/-- **Retry interrupted by shutdown keeps the request.**  A goroutine waiting in the retry back-off after `stopCh` was
+closed: `retrySender.Send` returns `experr.NewShutdownErr(err)`, `OnDone` classifies it as a shutdown error — storage and
+`finalised` are untouched (so by `C01_glue_no_loss` the request stays recoverable for the next start), whatever error the
+export function had returned. -/
+theorem C01_glue_retry_interrupted_by_shutdown_keeps_request (g : GCfg) (j i : Nat) (r : Req) (t : ErrTree)
+    (hj : g.cons[j]? = some (.backoff i r t)) (hs : g.stopCh = true) :
+    (fireG (fireG g (.backoffEnd j .stop)) (.cDone j)).q.st = g.q.st ∧
+    (fireG (fireG g (.backoffEnd j .stop)) (.cDone j)).q.finalised = g.q.finalised := by
+  have hlen : j < g.cons.length := by
+    rcases List.getElem?_eq_some_iff.mp hj with ⟨h, _⟩; exact h
+  have e1 : fireG g (.backoffEnd j .stop) = { g with cons := g.cons.set j (.ret i r (some (.shutdown t))) } := by
+    rw [fireG_backoffEnd, hj]; simp [hs]
+  rw [e1, fireG_cDone]
+  split
+  · have hc : (g.cons.set j (CPc.ret i r (some (ErrTree.shutdown t))))[j]? = some (.ret i r (some (.shutdown t))) :=
+      List.getElem?_set_self hlen
+    simp only [hc]
+    obtain ⟨hq, _⟩ := settle_q { qfire { g with cons := g.cons.set j (.ret i r (some (.shutdown t))) } (.done i (outcomeOf (some (.shutdown t)))) with
+        inOp := some (j, .done), cons := (g.cons.set j (.ret i r (some (.shutdown t)))).set j .inQueue }
+    rw [hq]
+    have hoc : outcomeOf (some (ErrTree.shutdown t)) = .shutdownErr := rfl
+    rw [hoc]
+    exact ⟨C01_shutdown_err_keeps_store g.q i, C01_shutdown_err_not_final g.q i⟩
+  · exact ⟨rfl, rfl⟩
+
+/-- **Only a shutdown makes a hand-off end as "interrupted".**  If the export function itself never returns a
+shutdown-classified error (`NoShutExport`, hypothesis on the environment), then in every schedule a goroutine is about to
+report a shutdown-classified outcome to `OnDone` only if `stopCh` is closed, i.e. `retrySender.Shutdown` has been called in
+this incarnation: while the exporter is running, every hand-off that completes completes finally. -/
+theorem C01_glue_shutdown_outcome_only_when_stopping (gk : GConf) (k : Conf) (gls : List GLabel)
+    (h : ∀ l ∈ gls, NoShutExport l) (j i : Nat) (r : Req) (e : Option ErrTree)
+    (hj : (runG gk k gls).cons[j]? = some (.ret i r e)) (hs : outcomeOf e = .shutdownErr) :
+    (runG gk k gls).stopCh = true :=
+  stopInv_runG gk k gls h j _ hj hs
+
+/-- **Handed to the export function at least once** (liveness under an explicit fair schedule).  From ANY reachable glue
+configuration (any goroutine anywhere between `Read` and `OnDone`, any operation half done, dead or alive): let the
+process die, let a new incarnation start, and schedule consumer goroutine 0 fairly against a destination that accepts
+(`restartG` / `drainAllG`, total functions) — then every accepted request has been passed to the export function, and
+that call has returned.  Fairness hypothesis = the schedule built into `drainAllG`: no further death, the consumer gets
+to run, the export returns. -/
+theorem C01_glue_exported_at_least_once (gk : GConf) (k : Conf) (gls : List GLabel) (hn : 0 < gk.n) :
+    ∀ r ∈ (runG gk k gls).q.accepted,
+      r ∈ (drainAllG (restartG (runG gk k gls))).invoked ∧ r ∈ (drainAllG (restartG (runG gk k gls))).returned := by
+  intro r hr
+  have hi : Inv (runG gk k gls).q := by rw [C01_glue_refines_queue]; exact inv_run k _
+  have hgk : (runG gk k gls).gk.n = gk.n := by
+    have : (runG gk k gls).gk = gk := foldl_gk gls (initG gk k)
+    rw [this]
+  have e := drainAllG_restartG_q (runG gk k gls) (by rw [hgk]; exact hn) hi
+  have hfin : r ∈ (drainAllG (restartG (runG gk k gls))).q.finalised := by
+    rw [e]; exact accepted_finalised_after_drain hi r hr
+  have hg : GInv (drainAllG (restartG (runG gk k gls))) := ginv_drainG _ (ginv_restartG (ginv_runG gk k gls))
+  exact ⟨hg.sub r (hg.fin r hfin), hg.fin r hfin⟩
+
+section GlueExamples
+open GLabel Label
+
+/-- two consumers; A and B are read by different goroutines; B's export fails retryably and is interrupted by the
+shutdown of the retry sender, A's export succeeds; then the process dies -/
+def exGlue : List GLabel :=
+  [env start, env tick, env (offer exA), env (offer exB),
+   cRead 0, env tick, cRead 1, env tick, cInvoke 1, cInvoke 0,
+   expRet 1 (.err .plain false), expRet 0 .ok, cDone 0,
+   rsShutdown, backoffEnd 1 .stop, cDone 1, env crash]
+
+example : (runG { n := 2 } { cap := 8 } exGlue).q.finalised = [exA] ∧
+    (runG { n := 2 } { cap := 8 } exGlue).returned = [exA, exB] ∧
+    (runG { n := 2 } { cap := 8 } exGlue).q.st.items 1 = some exB ∧
+    (runG { n := 2 } { cap := 8 } exGlue).q.st.di = [1] := by decide
+-- the queue labels that this glue run fired, oldest first
+example : (runG { n := 2 } { cap := 8 } exGlue).emitted.reverse =
+    [.start, .tick, .offer exA, .offer exB, .read, .tick, .read, .tick, .done 0 .final, .done 1 .shutdownErr, .crash] := by rfl
+-- after the fair continuation B has been exported (again) and the durable queue is empty
+example : exB ∈ (drainAllG (restartG (runG { n := 2 } { cap := 8 } exGlue))).invoked ∧
+    (drainAllG (restartG (runG { n := 2 } { cap := 8 } exGlue))).q.st.di = [] := by decide
+-- `exGlue` meets `NoShutExport`, and after `backoffEnd 1 .stop` goroutine 1 is about to report a shutdown-classified outcome
+example : (∀ l ∈ exGlue, NoShutExport l) ∧
+    (runG { n := 2 } { cap := 8 } (exGlue.take 15)).cons[1]? = some (.ret 1 exB (some (.shutdown .plain))) := by
+  refine ⟨?_, by decide⟩
+  intro l hl
+  simp only [exGlue, List.mem_cons, List.not_mem_nil, or_false] at hl
+  rcases hl with rfl | rfl | rfl | rfl | rfl | rfl | rfl | rfl | rfl | rfl | rfl | rfl | rfl | rfl | rfl | rfl | rfl <;>
+    first | trivial | rfl
+-- the hypothesis of the step theorem: a goroutine in the back-off while `stopCh` is closed
+example : (runG { n := 2 } { cap := 8 } (exGlue.take 14)).cons[1]? = some (.backoff 1 exB .plain) ∧
+    (runG { n := 2 } { cap := 8 } (exGlue.take 14)).stopCh = true := by decide
+
+end GlueExamples
 
 end OtelVerif.C01
